@@ -169,7 +169,10 @@ PROPS["C09"] = dict(
     level_text="TLC enumerates every sample of up to 3 (thorough 4) values over {-2,0,1,3}, unweighted or with every weight vector over {0,1,2} of positive total, both legitimate settings of Sorted, and every history of up to 2 (thorough 3) Sort/Copy operations; it checks that Sort keeps the pair bag and the store, that Copy never shares a store, and that integer weights mean repetition; each state carries the exact Mean, Variance, Sum, Weight and Bounds of every object; the binder replays the history on real Samples under 4 exact affine maps (offsets to 1e9) and random permutations, asks every query of every object with a snapshot before and after, and checks Sort/Copy relationally (ascending, pair bag, same / disjoint storage)",
     level_note=_sample_note,
     stages=[dict(name="gen", kind="gen", module="Sample.tla", cfg="Sample_gen.cfg", consts=_sample_consts,
-                 replay_args=["-notwhat", "Quantile,IQR"])],
+                 replay_args=["-notwhat", "Quantile,IQR"]),
+            dict(name="vec", kind="gen", family="vec", module="Vec.tla", cfg="Vec_gen.cfg"),
+            dict(name="trace", kind="trace", module="SampleTrace.tla", cfg="SampleTrace.cfg",
+                 record_args={"quick": ["-n", 120, "-max", 60, "-ops", 30, "-funcs", "stats"], "thorough": ["-n", 3000, "-max", 200, "-ops", 40, "-funcs", "stats"]})],
 )
 PROPS["C10"] = dict(
     family="sample", specdir="sample",
@@ -177,5 +180,7 @@ PROPS["C10"] = dict(
     level_text="For every enumerated sample (as C09) and every level q in {-1/2, 0, k/16, 1/3, 2/3, the R8 break points (3k-1)/(3n+1), 1, 3/2} TLC computes the exact type-8 quantile (weighted: the first value whose cumulative weight exceeds qW) and checks range and monotonicity in q; the binder compares Sample.Quantile on sorted, unsorted, flagged and copied objects under affine maps and permutations, checks monotonicity of the returned values, IQR = Q(3/4) - Q(1/4), and that the sample is bit-identical after every query",
     level_note=_sample_note,
     stages=[dict(name="gen", kind="gen", module="Sample.tla", cfg="Sample_gen.cfg", consts=_sample_consts,
-                 replay_args=["-what", "Quantile,IQR,query-modifies,Sort"])],
+                 replay_args=["-what", "Quantile,IQR,query-modifies,Sort"]),
+            dict(name="trace", kind="trace", module="SampleTrace.tla", cfg="SampleTrace.cfg",
+                 record_args={"quick": ["-n", 120, "-max", 60, "-ops", 30, "-funcs", "quantile"], "thorough": ["-n", 3000, "-max", 200, "-ops", 40, "-funcs", "quantile"]})],
 )
